@@ -33,6 +33,7 @@ type backend struct {
 	attrByH     bool        // GetAttr answers a fixed function of the handle (content checks under concurrency)
 	fillByOff   bool        // ReadAt fills the buffer with byte(offset)
 	panicOn     string      // the next call of this method panics (once)
+	errOn       string      // the next call of this method fails with ENOTEMPTY (once)
 	fs          *memfs      // if set: outcomes of the tree operations come from this file system (K5)
 	presetQIDs  []p9.QID    // fs mode: the QIDs the next call hands out
 	forceKind   p9.FileMode // if non-zero: mode of the next file created by a named walk
@@ -138,6 +139,10 @@ func (b *backend) record(h int, meth string, ints []uint64, strs [][]byte, force
 	case len(forced) > 0:
 		b.tape = append(b.tape, fmt.Sprintf("err:%d", uint32(forced[0])))
 		o.err = forced[0]
+	case b.errOn != "" && b.errOn == meth:
+		b.errOn = ""
+		b.tape = append(b.tape, fmt.Sprintf("err:%d", uint32(linux.ENOTEMPTY)))
+		o.err = linux.ENOTEMPTY
 	case roll < b.panicPm || (b.panicOn != "" && b.panicOn == meth):
 		b.panicOn = ""
 		b.tape = append(b.tape, "panic")
